@@ -75,7 +75,13 @@ class libimp(object):
             return self.lib_imp2ad[libad][imp_ord_or_name]
         log.debug('new imp %s %s' % (imp_ord_or_name, dst_ad))
         ad = self.libbase2lastad[libad]
-        self.libbase2lastad[libad] += 0x10  # arbitrary
+        next_ad = ad + 0x10  # arbitrary
+        if (next_ad & 0xFFF) < (ad & 0xFFF):
+            # Stub area exhausted: the next area may belong to another
+            # library, continue in a fresh one
+            next_ad = self.libbase_ad + (ad & 0xF)
+            self.libbase_ad += 0x1000
+        self.libbase2lastad[libad] = next_ad
         self.lib_imp2ad[libad][imp_ord_or_name] = ad
 
         name_inv = dict(
